@@ -94,19 +94,21 @@ func buildFamily(x *Executor, seed uint64, idx int) (*family, int, error) {
 		if r.Intn(4) == 0 {
 			gv.SplitFile = []string{"actions.go", "y_actions.go"}[r.Intn(2)]
 		}
-		if gv.MixedAny {
-			// make sure the variant has something to mix: a rule with two or
-			// more action methods gets the Go type `any`
-			for _, rr := range cand.Rules {
-				sigs := map[int]bool{}
-				for _, pp := range rr.Prods {
-					sigs[len(pp.Terms)] = true
-				}
-				if len(sigs) >= 2 {
-					rr.Ret = 6
-					break
-				}
+		if idx%4 == 2 {
+			// every fourth family: action methods of one rule spelled `any` and
+			// `interface{}` and spread over two Go files
+			gv.MixedAny = true
+			if !opt.RichParser {
+				cand = specgen.Generate(r.Uint64(), specgen.Options{RichParser: true, RichLexer: opt.RichLexer})
 			}
+			if !cand.ForceMixableAny() {
+				if attempt < 30 {
+					continue
+				}
+				gv.MixedAny = false
+			}
+		} else if gv.MixedAny {
+			gv.MixedAny = cand.ForceMixableAny()
 		}
 		// cheap screen: front-end only (packages.Load fails by injection)
 		dir := filepath.Join(x.T.WorldRoot(), fmt.Sprintf("screen-%d-%d", idx, attempt))
@@ -272,14 +274,23 @@ func (st *c13State) modelOf(v *Variant) (*Observation, error) {
 		var ref *Observation
 		// two full pristine generations under different map orders, cwd
 		// spellings and directory names, cross-checked
-		for i := 0; i < 2; i++ {
-			dir := filepath.Join(st.x.T.WorldRoot(), fmt.Sprintf("model-%s-%d", key, i), []string{"pristine", "other_dir_name"}[i])
+		// Sources spread over several Go files are parsed by go/packages in
+		// goroutines the simulator cannot schedule: such variants get more
+		// pristine repetitions (under varying GOMAXPROCS) instead.
+		reps := 2
+		for n := range v.Files {
+			if strings.HasSuffix(n, "more_actions.go") {
+				reps = 7
+			}
+		}
+		for i := 0; i < reps; i++ {
+			dir := filepath.Join(st.x.T.WorldRoot(), fmt.Sprintf("model-%s-%d", key, i), []string{"pristine", "other_dir_name", "p3", "dir_four", "d5", "sixth", "no7"}[i])
 			os.RemoveAll(filepath.Dir(dir))
 			if err := SetSources(dir, v); err != nil {
 				m.err = Infra("%v", err)
 				return
 			}
-			op := Op{Kind: "Gen", Binary: "sim", Map: MapCfg{Mode: []string{"asc", "shuffle"}[i], Seed: r.Uint64() >> 1}, Cwd: cwdModes[r.Intn(len(cwdModes))], Report: true}
+			op := Op{Kind: "Gen", Binary: "sim", Map: MapCfg{Mode: []string{"asc", "shuffle", "desc", "rotate", "shuffle", "shuffle", "asc"}[i], Seed: r.Uint64() >> 1}, Cwd: cwdModes[r.Intn(len(cwdModes))], Report: true}
 			if i == 0 {
 				op.Cwd = "dot"
 			}
@@ -945,4 +956,37 @@ func isWriteSeam(fn string) bool {
 		return true
 	}
 	return false
+}
+
+// DebugFamily prints family idx of the C13 workload and generates its base
+// variant n times with the plain binary, reporting distinct outputs.
+func DebugFamily(seed uint64, idx, n int) error {
+	t, err := NewTree("dbgfam", true)
+	if err != nil {
+		return err
+	}
+	defer t.Close()
+	x := &Executor{T: t}
+	f, _, err := buildFamily(x, seed, idx)
+	if err != nil {
+		return err
+	}
+	v := f.variants[0]
+	for _, name := range sortedKeys(v.Files) {
+		fmt.Printf("==== %s\n%s\n", name, v.Files[name])
+	}
+	seen := map[string]int{}
+	for i := 0; i < n; i++ {
+		dir := filepath.Join(t.WorldRoot(), fmt.Sprintf("dbg-%d", i), "proj")
+		if err := SetSources(dir, v); err != nil {
+			return err
+		}
+		obs, err := x.RunGen(dir, Op{Kind: "Gen", Binary: "plain", Cwd: "dot"}, fmt.Sprintf("dbg%d", i))
+		if err != nil {
+			return err
+		}
+		seen[obs.ExitClass+" "+obs.FileSha["parser.gen.go"]]++
+	}
+	fmt.Println("distinct outputs:", seen)
+	return nil
 }
